@@ -158,7 +158,7 @@ type world struct {
 	dead    atomic.Bool   // the scheduler goroutine was taken out (spin guard): no further client calls
 	abandon chan struct{} // created OUTSIDE the bubble; closed when the bubble cannot be finished
 
-	viol    bool
+	viol    atomic.Bool
 	history []string
 }
 
@@ -440,10 +440,10 @@ func ft(t time.Time) string {
 }
 
 func (w *world) violation(sig, msg string) {
-	if w.viol {
+	if w.viol.Load() {
 		return
 	}
-	w.viol = true
+	w.viol.Store(true)
 	rec.Violation(w.idx, sig, msg, map[string]any{"mode": w.mode, "history": w.hist(), "events": w.dump()})
 }
 
